@@ -15,9 +15,9 @@ Definition allowed (g : graph) (o : op) (x : N) : Prop :=
   match o with
   | ORemoveNode nm | ORemoveFacility nm | ORemoveSwitch nm => A_node g nm x
   | ORemoveLink nm => In x (by_name g CLink nm)
-  | ORemoveNsTopo nm => exists s, In s (by_name g CNS nm) /\ U_ns g s x
+  | ORemoveNsTopo nm => exists s, In s (by_name g CNS nm) /\ A_ns g s x
   | ORemoveComponent n c => A_comp g n c x
-  | ONodeRemoveNs n sname => exists s, In s (first_neighbor g n RHas CNS) /\ name_of g s = sname /\ U_ns g s x
+  | ONodeRemoveNs n sname => exists s, In s (first_neighbor g n RHas CNS) /\ name_of g s = sname /\ A_ns g s x
   | ODisconnect _ i => U_disc g i x
   | OUnpeer a b => exists xy, unpeer_ends g a b = Some [xy] /\ (U_cp g (fst xy) true x \/ U_cp g (snd xy) true x)
   | ORemoveInterface s iname => exists i, In i (cpn g s) /\ name_of g i = iname /\ U_cp g i true x
@@ -142,12 +142,13 @@ Proof.
     destruct (find_node g b); [|inversion E; intros x []].
     destruct (unpeer_ends g a b) as [[|xy [|xy' l]]|] eqn:U; simpl in E;
       try (inversion E; intros x []; fail).
-    intros x Hx. exists xy. split; [reflexivity|].
-    assert (S : Sound g (fun x => U_cp g (fst xy) true x \/ U_cp g (snd xy) true x)
-                      (bind (api_unpeer_with xy (nth 0 cs []) (nth 1 cs [])) (fun cc => ret [fst cc; snd cc]))).
-    { apply Sound_bind'; [apply Inv_api_unpeer_with | apply Sound_api_unpeer_with | intros cc; apply Sound_ret]. }
-    apply (Sound_run g _ _ r g' tr S); [|exact Hx].
-    unfold run, bind. exact E.
+    + intros x Hx. exists xy. split; [reflexivity|].
+      assert (S : Sound g (fun x => U_cp g (fst xy) true x \/ U_cp g (snd xy) true x)
+                        (bind (api_unpeer_checked xy (nth 0 cs []) (nth 1 cs [])) (fun cc => ret [fst cc; snd cc]))).
+      { apply Sound_bind'; [apply Inv_api_unpeer_checked | apply Sound_api_unpeer_checked | intros cc; apply Sound_ret]. }
+      apply (Sound_run g _ _ r g' tr S); [|exact Hx].
+      unfold run, bind. exact E.
+    + match type of E with context [if ?c then _ else _] => destruct c end; simpl in E; inversion E; intros x [].
   - refine (Sound_run g _ _ _ _ _ _ E).
     apply Sound_bind'; [apply Inv_api_remove_interface | apply Sound_api_remove_interface | intros c; apply Sound_ret].
   - refine (Sound_run g _ _ _ _ _ _ E).
